@@ -27,7 +27,7 @@ import core
 
 LEVEL = "proof"
 EXTRA_TARGETS = ["model/RArgsTie.vo", "model/RArgsValTie.vo", "model/RArgsSubTie.vo", "model/RArgsInternTie.vo",
-                 "model/RArgsRelTie.vo"]
+                 "model/RArgsRelTie.vo", "model/RArgsShapeTie.vo"]
 
 HEADER = ("From Coq Require Import List ZArith.\nImport ListNotations.\n"
           "From TI Require Import model.RArgs model.RArgsTie.\nOpen Scope nat_scope.\n")
@@ -1361,6 +1361,253 @@ def describe_rel(case, obs=None):
     return t + " | ".join(parts)
 
 
+# ------------------------------------------------------------------ initial-set product / class statements with mix-ins
+
+MXHEADER = ("From Coq Require Import List ZArith.\nImport ListNotations.\n"
+            "From TI Require Import model.RArgs model.RArgsShape model.RArgsShapeTie.\nOpen Scope nat_scope.\n")
+INIT_KINDS = ["none", "BASE_RENDER_ARGS", "interned default set", "equal to the default set, not interned", "non-default set"]
+INIT_RELS = ["same", "ancestor", "descendant", "sibling/unrelated"]
+FOLLOWS = ["no namespace", "compatible namespaces", "an incompatible namespace"]
+
+
+def rel_of(par, ci, t):
+    return "same" if ci == t else "ancestor" if anc(par, ci, t) else "descendant" if anc(par, t, ci) else "sibling/unrelated"
+
+
+def init_product_prog(par, nsd, init_classes, targets, nk=2):
+    """RenderArgs(t, init, *follow) for the PRODUCT (kind of initial set) x (class of the initial set) x (what follows):
+    first the initial sets (None, BASE_RENDER_ARGS, and for every class in init_classes its interned default set,
+    a set equal to it that is not interned, a non-default set), then every combination for every target"""
+    owners = [c for c in range(len(par)) if nsd[c] is not None]
+    ops = [{"op": "new", "k": 0, "cls": 0, "init": None, "nss": []}]
+    inits = [None, 0]
+    for ci in init_classes:
+        own = [a for a in chain(par, ci) if nsd[a] is not None]
+        ops.append({"op": "new", "k": 0, "cls": ci, "init": None, "nss": []})
+        inits.append(len(ops) - 1)
+        if own:
+            ops.append({"op": "new", "k": 0, "cls": ci, "init": None, "nss": [N(own[0], list(nsd[own[0]]))]})
+            inits.append(len(ops) - 1)
+            ops.append({"op": "new", "k": 0, "cls": ci, "init": None, "nss": [N(own[0], [v + 8 for v in nsd[own[0]]])]})
+            inits.append(len(ops) - 1)
+    for t in targets:
+        good = [a for a in chain(par, t) if nsd[a] is not None]
+        bad = [a for a in owners if not anc(par, a, t)]
+        follows = [[]]
+        if good:
+            follows += [[N(good[0], [v + 20 for v in nsd[good[0]]])],
+                        [N(good[-1], list(nsd[good[-1]])), N(good[0], [v + 21 for v in nsd[good[0]]])]]
+        if bad:
+            follows.append([N(bad[0], [v + 30 for v in nsd[bad[0]]])])
+        for x in inits:
+            for nss in follows:
+                ops.append({"op": "new", "k": 0, "cls": t, "init": x, "nss": copy.deepcopy(nss)})
+            if nk > 1 and x is not None and good:   # another RenderArgs type: no set of type K0 is interned for it
+                ops.append({"op": "new", "k": 1, "cls": t, "init": x, "nss": [N(good[0], [v + 22 for v in nsd[good[0]]])]})
+    for o in ops:
+        o["pres"] = 0
+    pr = [N(c, list(nsd[c])) for c in owners][:3]
+    return {"type": "prog", "par": par, "nsd": nsd, "nk": nk, "ops": ops, "probes": [list(pr) for _ in ops]}
+
+
+def init_product_corpus():
+    # 1 = A, 2 = B(A), 3 = C(A) (sibling of B), 4 = D (unrelated), 5 = E(B); every class owns a namespace class
+    par, nsd = [0, 0, 1, 1, 0, 2], [None, [1], [2], [3], [4], [5]]
+    out = [init_product_prog(par, nsd, [ci], [t]) for ci, t in ((2, 2), (1, 2), (5, 2), (3, 2), (4, 2), (2, 1))]
+    # gap classes: the sibling / the target own no namespace class
+    out.append(init_product_prog([0, 0, 1, 1, 2], [None, [1], None, None, [7]], [3, 4], [2], nk=1))
+    return out
+
+
+def gen_initprod(rng):
+    par, nsd = gen_forest(rng)
+    nc = len(par)
+    t = rng.randrange(1, nc)
+    others = [c for c in range(1, nc) if c != t]
+    rng.shuffle(others)
+    # classes in as many different relations to the target as the forest has
+    seen, ics = set(), []
+    for c in [t] + others:
+        r = rel_of(par, c, t)
+        if r not in seen or rng.random() < 0.15:
+            seen.add(r)
+            ics.append(c)
+    rng.shuffle(ics)
+    return init_product_prog(par, nsd, ics[:2], [t], nk=rng.choice([1, 2]))
+
+
+INIT_CORPUS = init_product_corpus()
+
+
+def gen_mix(rng, par):
+    """per class [n_before, n_after, n_mid, g]: plain mix-in classes listed before the render base, after everything
+    else, and between the render base and a second, redundant render base g (a proper ancestor of the render base)"""
+    n = len(par)
+    mix = [[0, 0, 0, 0] for _ in range(n)]
+    for c in rng.sample(range(1, n), min(n - 1, rng.choice([1, 1, 2, 2, 3, n - 1]))):
+        shape = rng.choice(["before", "before", "after", "both", "mid", "mid", "all"])
+        nb = rng.choice([1, 1, 2]) if shape in ("before", "both", "all") else 0
+        na = rng.choice([1, 1, 2]) if shape in ("after", "both", "all") else 0
+        nm, g = 0, 0
+        if shape in ("mid", "all"):
+            if par[c]:
+                g, nm = rng.choice(chain(par, par[c])[1:]), rng.choice([1, 1, 2])
+            else:
+                nb = nb or 1
+        mix[c] = [nb, na, nm, g]
+    return mix
+
+
+def gen_nsmix(rng):
+    n = rng.randint(3, 6)
+    shape = rng.random()
+    par = [0] + [(c - 1 if shape < 0.45 else rng.randrange(0, c)) for c in range(1, n)]
+    own = [False] + [rng.random() < 0.7 for _ in range(1, n)]
+    for c in rng.sample(range(1, n), 2):
+        own[c] = True
+    return {"type": "nsmix", "par": par, "own": own, "mix": gen_mix(rng, par)}
+
+
+def nsmix_corpus():
+    z = [0, 0, 0, 0]
+    out = [
+        # A <- B <- Q(Mixin, B) <- R; P(B, Mixin): a mix-in before / after the render base, a child of such a class
+        {"par": [0, 0, 1, 2, 2, 3], "own": [False, True, True, True, True, False], "mix": [z, z, z, [1, 0, 0, 0], [0, 1, 0, 0], z]},
+        # B(A, M), Q(B, M, A), R(M, Q, M, Renderable): after / between render bases
+        {"par": [0, 0, 1, 2, 3], "own": [False, True, True, True, False], "mix": [z, z, [0, 1, 0, 0], [0, 0, 1, 1], [1, 0, 1, 0]]},
+        # mix-ins directly above Renderable and in every class of a chain, two at a time
+        {"par": [0, 0, 1, 2], "own": [False, True, True, True], "mix": [z, [2, 0, 0, 0], [1, 1, 0, 0], [2, 2, 0, 0]]},
+        # a gap class with the mix-in, siblings without
+        {"par": [0, 0, 1, 1, 2], "own": [False, True, False, True, True], "mix": [z, z, [1, 0, 0, 0], z, [0, 0, 2, 1]]},
+    ]
+    for c in out:
+        c["type"] = "nsmix"
+    return out
+
+
+NSMIX_CORPUS = nsmix_corpus()
+
+
+def mix_prog_corpus():
+    """the program family on classes with mix-ins: default sets, namespaces of every ancestor, convert both ways,
+    |, update in both forms, to_render_args"""
+    z = [0, 0, 0, 0]
+    ops = [{"op": "new", "k": 0, "cls": 3, "init": None, "nss": []},
+           {"op": "new", "k": 0, "cls": 3, "init": None, "nss": [N(1, [10]), N(2, [20])]},
+           {"op": "new", "k": 0, "cls": 2, "init": None, "nss": [N(1, [10]), N(2, [20])]},
+           {"op": "new", "k": 0, "cls": 3, "init": 2, "nss": [N(3, [40])]},
+           {"op": "conv", "x": 2, "rc": 3},
+           {"op": "conv", "x": 4, "rc": 2},
+           {"op": "or", "a": N(3, [40]), "b": {"ra": 2}},
+           {"op": "or", "a": N(2, [21]), "b": {"ns": N(3, [41])}},
+           {"op": "pos", "a": N(3, [40])},
+           {"op": "updf", "x": 8, "rc": 1, "fields": [[0, 11]]},
+           {"op": "upd", "x": 0, "nss": [N(1, [12])]},
+           {"op": "to", "a": N(1, [13]), "rc": 4},
+           {"op": "new", "k": 0, "cls": 4, "init": 1, "nss": []},
+           {"op": "new", "k": 0, "cls": 3, "init": None, "nss": [N(5, [50])]}]
+    for o in ops:
+        o["pres"] = 0
+    par, nsd = [0, 0, 1, 2, 3, 2], [None, [1], [2], [4], None, [3]]
+    pr = [N(1, [1]), N(2, [2]), N(3, [4])]
+    return [{"type": "prog", "par": par, "nsd": nsd, "nk": 1, "ops": copy.deepcopy(ops), "probes": [list(pr) for _ in ops], "mix": mix}
+            for mix in ([z, z, z, [1, 0, 0, 0], z, [0, 1, 0, 0]], [z, z, [0, 1, 0, 0], [0, 0, 1, 1], [1, 0, 1, 0], z])]
+
+
+MIX_PROG_CORPUS = mix_prog_corpus()
+
+
+def nsmix_term(c, r):
+    mix = c["mix"]
+
+    def pairs(l):
+        return core.coq_list(l, lambda p: f"({p[0]}, {p[1]})")
+    return (f"{{| mc_par := {core.coq_list(c['par'])}; mc_own := {core.coq_list(c['own'], b_)}; "
+            f"mc_before := {core.coq_list([m[0] for m in mix])}; mc_after := {core.coq_list([m[1] for m in mix])}; "
+            f"mc_mid := {core.coq_list([m[2] for m in mix])}; mc_g := {core.coq_list([m[3] for m in mix])}; "
+            f"mc_mro := {core.coq_list(r['mro'], pairs)}; mc_held := {core.coq_list(r['held'], core.coq_list)}; "
+            f"mc_acc := {core.coq_list(r['acc'], core.coq_list)} |}}")
+
+
+def class_stmt(par, mix, c, name="C"):
+    def base(k):
+        return f"{name}{k}" if k else "Renderable"
+    if not mix or not any(mix[c][:3]):
+        return f"class {name}{c}({base(par[c])})"
+    nb, na, nm, g = mix[c]
+    bases = ([f"Mixin{c}_{j}" for j in range(nb)] + [base(par[c])]
+             + ([f"Mixin{c}_{j}" for j in range(nb + na, nb + na + nm)] + [base(g)] if nm else [])
+             + [f"Mixin{c}_{j}" for j in range(nb, nb + na)])
+    return f"class {name}{c}({', '.join(bases)})"
+
+
+def describe_mix(case, obs=None):
+    par, own, mix = case["par"], case["own"], case["mix"]
+    t = ("class statements (MixinN_j = a plain class; [Args] = owns a namespace class): "
+         + "; ".join(class_stmt(par, mix, c) + (" [Args]" if own[c] else "") for c in range(1, len(par))))
+    if obs:
+        notes = []
+        for c in range(1, len(par)):
+            want = [a for a in chain(par, c) if own[a]]
+            if sorted(obs["held"][c]) != sorted(want):
+                notes.append(f"RenderArgs(C{c}) holds namespaces for classes {obs['held'][c]}, the rule says {want}")
+            for a in range(1, len(par)):
+                if own[a] and (obs["acc"][c][a] == 0) != (a in want):
+                    notes.append(f"RenderArgs(C{c}, C{a}.Args(7)) "
+                                 + ("accepted" if obs["acc"][c][a] == 0 else f"rejected (error code {obs['acc'][c][a] - 1})")
+                                 + f" although C{a} is {'' if a in want else 'not '}C{c} or an ancestor of it")
+        t += ".  Observed: " + ("; ".join(notes[:4]) if notes else f"held {obs['held']}")
+    return t
+
+
+def shrink_mix(case):
+    """candidates: the mix-ins of one class only, one of them first"""
+    out = []
+    for c, m in enumerate(case["mix"]):
+        if any(m[:3]):
+            for mm in ([1, 0, 0, 0] if m[0] else None, [0, 0, 1, m[3]] if m[2] else None, [0, 1, 0, 0] if m[1] else None, m):
+                if mm:
+                    out.append({**case, "mix": [mm if k == c else [0, 0, 0, 0] for k in range(len(case["mix"]))]})
+    return out
+
+
+def below_mixin(par, mix):
+    """per class: some class of its chain lists a mix-in BEFORE a render base (a non-render class precedes render classes in the MRO)"""
+    return [any(mix[a][0] or mix[a][2] for a in chain(par, c) if a) for c in range(len(par))]
+
+
+def mix_stats(h, par, mix, bump):
+    for c in range(1, len(par)):
+        if any(mix[c][:3]):
+            bump(h["class_statements_by_shape(before,after,between)"], ",".join(str(min(x, 2)) for x in mix[c][:3]))
+    h["classes_below_a_mixin_before_its_render_base"] += sum(below_mixin(par, mix))
+
+
+def init_bucket(c, r, t):
+    """(kind of initial set / class relation to the target / what follows -> outcome) of constructor call t, from the observations"""
+    o, b = c["ops"][t], r["obs"][t]
+    par, nsd = c["par"], c["nsd"]
+    follow = (FOLLOWS[0] if not o["nss"] else
+              FOLLOWS[1] if all(anc(par, n[0], o["cls"]) and nsd[n[0]] is not None for n in o["nss"]) else FOLLOWS[2])
+    out = "ok" if b["res"] >= 0 else f"err{-1 - b['res']}"
+    if o["init"] is None:
+        return f"none / - / {follow} -> {out}"
+    if o["init"] >= t or r["obs"][o["init"]]["res"] < 0:
+        return f"not a set / - / {follow} -> {out}"
+    j = r["obs"][o["init"]]["res"]
+    kind_j, cls_j, nss_j = b["dump"][j][0], b["dump"][j][1], b["dump"][j][2]
+    before = r["obs"][t - 1]["itn"] if t else []
+    if kind_j == 0 and cls_j == 0:
+        kind = INIT_KINDS[1]
+    elif [o["k"], cls_j, j] in before:
+        kind = INIT_KINDS[2]
+    elif all(list(n[1]) == list(nsd[n[0]]) for n in nss_j):
+        kind = INIT_KINDS[3]
+    else:
+        kind = INIT_KINDS[4]
+    return f"{kind} / {rel_of(par, cls_j, o['cls'])} / {follow} -> {out}"
+
+
 def evaluate(cases, tag="c16", want_diag=False):
     """Returns (codes, errors, impl results, diag strings)."""
     impl = core.run_impl_parallel("impl_c16.py", cases)
@@ -1388,6 +1635,12 @@ def evaluate(cases, tag="c16", want_diag=False):
             errors += errs
             for idx, code in bad:
                 codes[rel[idx][0]] = code
+    mixes = [(i, nsmix_term(c, r)) for i, (c, r) in enumerate(zip(cases, impl)) if c["type"] == "nsmix"]
+    if mixes:
+        bad, errs = core.coq_shards(tag + "x", MXHEADER, [t for _, t in mixes], "mcase", "mxbad cases", shard=40)
+        errors += errs
+        for idx, code in bad:
+            codes[mixes[idx][0]] = code
     if subs:
         bad, errs = core.coq_shards(tag + "u", SHEADER, [t for _, t in subs], "scase", "sbad cases", shard=16)
         errors += errs
@@ -1495,7 +1748,11 @@ def shrink(case, diag=None, rounds=25):
             c = copy.deepcopy(cur)
             c["par"].pop()
             c["nsd"].pop()
+            if "mix" in c:
+                c["mix"].pop()
             cands.append(c)
+        if any(any(m[:3]) for m in cur.get("mix", [])):
+            cands += [c for c in shrink_mix(cur) if c["mix"] != cur["mix"]]
         # namespace subclasses: instances of the associated class itself instead (all, then one by one)
         tagged = [(t, i) for t, o in enumerate(cur["ops"]) for i, n in enumerate(op_nss(o)) if ns_tag(n)]
         for sel in ([tagged] if len(tagged) > 1 else []) + [[x] for x in tagged]:
@@ -1754,6 +2011,8 @@ def describe(case):
         return describe_intern(case)
     if case["type"] in ("nsexp", "nsvirt"):
         return describe_rel(case)
+    if case["type"] == "nsmix":
+        return describe_mix(case)
     if case["type"] == "nssub":
         return describe_sub(case)
     if case["type"] == "nsprog":
@@ -1784,7 +2043,11 @@ def describe(case):
         if k == "pos":
             return f"+{ns(o['a'])}"
         return f"{ns(o['a'])}.to_render_args(C{o['rc']})"
-    return f"parents={case['par']} args_defaults={case['nsd']} kinds={case['nk']} ops=[{'; '.join(map(one, case['ops']))}]"
+    stm = ""
+    if any(any(m[:3]) for m in case.get("mix", [])):
+        stm = " class statements with plain mix-in classes: " + "; ".join(
+            class_stmt(case["par"], case["mix"], c) for c in range(1, len(case["par"])) if any(case["mix"][c][:3])) + ";"
+    return f"parents={case['par']} args_defaults={case['nsd']}{stm} kinds={case['nk']} ops=[{'; '.join(map(one, case['ops']))}]"
 
 
 def canon(case):
@@ -1821,6 +2084,16 @@ def run(ctx):
         cases += list(NSEXP_CORPUS) + list(NSVIRT_CORPUS)
         cases += [gen_nsexp(rrng) for _ in range(20 if ctx.quick else 400)]
         cases += [gen_nsvirt(rrng) for _ in range(16 if ctx.quick else 300)]
+        # its own stream: the product (kind of initial set) x (its class relation to the target) x (what follows), and
+        # render class statements listing plain mix-in classes (the program family on them + the MRO / hierarchy probe)
+        xrng = random.Random(rrng.getrandbits(64) ^ 0x3F)
+        cases += list(INIT_CORPUS) + list(MIX_PROG_CORPUS) + list(NSMIX_CORPUS)
+        cases += [gen_initprod(xrng) for _ in range(4 if ctx.quick else 150)]
+        for i in range(20 if ctx.quick else 600):
+            c = gen_prog(xrng, 12 if i % 3 else 6)
+            c["mix"] = gen_mix(xrng, c["par"])
+            cases.append(c)
+        cases += [gen_nsmix(xrng) for _ in range(14 if ctx.quick else 400)]
         if os.environ.get("VERIF_C16_INIT_FAMILY") == "1":
             # NOT part of the registered check: the initial-set argument with virtual subclassing (see
             # pending_fixes/C16_virtual_subclass_init_render_args.*)
@@ -1856,6 +2129,9 @@ def run(ctx):
                       "copies_made_by_update_by_kind": {}, "copies_of_copies": 0},
             "exports": {"cases": 0, "instances_by_class_kind": {}, "equal_pairs_of_instances_of_different_classes": 0,
                         "equal_pairs_with_different_as_dict_values": 0, "equal_set_pairs_over_all_routes": 0},
+            "initial_set(kind / class relation to the target / what follows -> outcome)": {},
+            "mixins": {"programs_on_classes_with_mixins": 0, "hierarchy_probe_cases": 0,
+                       "class_statements_by_shape(before,after,between)": {}, "classes_below_a_mixin_before_its_render_base": 0},
             "virtual": {"cases": 0, "family": {}, "registrations": {}, "probes_by_route": {},
                         "probes_by_relation(inheritance/registration only/none)": {}, "probe_outcomes": {}}}
     distinct = set()
@@ -1863,6 +2139,7 @@ def run(ctx):
     sdistinct = set()
     idistinct = set()
     rdistinct = set()
+    xdistinct = set()
 
     def bump(d, k):
         d[k] = d.get(k, 0) + 1
@@ -1878,6 +2155,16 @@ def run(ctx):
             def nondefault_inherited(entry, g):
                 """the dumped set holds a non-default namespace for an ancestor of class g"""
                 return any(anc(c["par"], n[0], g) and list(n[1]) != list(c["nsd"][n[0]]) for n in entry[2])
+            if any(any(m[:3]) for m in c.get("mix", [])):
+                hist["mixins"]["programs_on_classes_with_mixins"] += 1
+                mix_stats(hist["mixins"], c["par"], c["mix"], bump)
+                xdistinct.add(core.sig(canon(c)))
+            for t, (o, b) in enumerate(zip(c["ops"], r["obs"])):
+                if o["op"] == "new":
+                    key = init_bucket(c, r, t)
+                    bump(hist["initial_set(kind / class relation to the target / what follows -> outcome)"], key)
+                    if key.startswith(("interned default", "BASE")) and "sibling" in key and "no namespace" not in key:
+                        xdistinct.add(core.sig(canon(c)))
             for o, b in zip(c["ops"], r["obs"]):
                 bump(hist["op_kinds"], o["op"])
                 bump(hist["op_outcomes"], "ok" if b["res"] >= 0 else f"err{-1 - b['res']}")
@@ -2029,6 +2316,12 @@ def run(ctx):
             # non-trivial: two EQUAL instances whose classes export different values
             if differ:
                 rdistinct.add(core.sig(c))
+        elif c["type"] == "nsmix":
+            hist["mixins"]["hierarchy_probe_cases"] += 1
+            mix_stats(hist["mixins"], c["par"], c["mix"], bump)
+            # non-trivial: a class with namespace-owning proper ancestors after a mix-in in its MRO
+            if any(m and [a for a in chain(c["par"], t)[1:] if c["own"][a]] for t, m in enumerate(below_mixin(c["par"], c["mix"]))):
+                xdistinct.add(core.sig(c))
         elif c["type"] == "nsvirt":
             vh = hist["virtual"]
             vh["cases"] += 1
@@ -2070,6 +2363,19 @@ def run(ctx):
                              "what": "interleaved requests for the shared default set of one class: a returned set is not the "
                                      "complete default set (icheck code %d; %d position(s) of this scenario contradict the rule): %s"
                                      % (codes2[0], sum(1 for _, cd in diags[i] if cd >= 2), describe_intern(small, obs)),
+                             "replay": {"case": small, "observed": impl2[0], "code": codes2[0]}})
+            continue
+        if code >= 2 and c["type"] == "nsmix":
+            small = c
+            if not ctx.replay:
+                cands = shrink_mix(c)
+                ccodes = evaluate(cands, tag="c16s")[0] if cands else []
+                small = next((cc for cc, cd in zip(cands, ccodes) if cd >= 2), c)
+            codes2, _, impl2, _ = evaluate([small], tag="c16r")
+            failures.append({"signature": core.sig(canon(small)),
+                             "what": "the hierarchy of a render class (the classes whose namespaces a set holds / accepts) is the class and its "
+                                     "ancestors BY INHERITANCE, wherever plain mix-in classes stand in the class statements "
+                                     f"(check code {codes2[0]}): {describe_mix(small, impl2[0])}",
                              "replay": {"case": small, "observed": impl2[0], "code": codes2[0]}})
             continue
         if code >= 2 and c["type"] in ("nsexp", "nsvirt"):
@@ -2125,7 +2431,7 @@ def run(ctx):
                      "RArgsRel.u_accept ByHierarchy / u_rule (ancestors by inheritance) and RArgsRel.issubclass == real constructor routes / issubclass "
                      "on forests with abc registrations",
         "evaluations": len(cases),
-        "distinct_nontrivial": len(distinct) + len(ndistinct) + len(sdistinct) + len(idistinct) + len(rdistinct),
+        "distinct_nontrivial": len(distinct) + len(ndistinct) + len(sdistinct) + len(idistinct) + len(rdistinct) + len(xdistinct),
         "rule": "corpus + generated programs: forest of 2-8 render classes (depth <= 4, branching <= 3, chains / bushy / random), "
                 "45-85% of classes with an Args namespace of 1-3 int fields and, in 60% of the forests with an inner class, a forced "
                 "GAP pattern A(args) <- B(no Args of its own) [<- C(args)]; 0-3 SUBCLASSES of every namespace class (child, "
@@ -2177,7 +2483,8 @@ def run(ctx):
                   "distinct_nontrivial_set_programs": len(distinct), "distinct_nontrivial_namespace_programs": len(ndistinct),
                   "distinct_nontrivial_subclass_constructor_programs": len(sdistinct),
                   "distinct_nontrivial_interleaved_request_positions": len(idistinct),
-                  "distinct_nontrivial_export_and_virtual_subclass_cases": len(rdistinct)},
+                  "distinct_nontrivial_export_and_virtual_subclass_cases": len(rdistinct),
+                  "distinct_nontrivial_initial_set_product_and_mixin_cases": len(xdistinct)},
         "mismatches": mismatches,
         "failures": failures,
         "errors": errors,
